@@ -317,7 +317,7 @@ pub fn run(ctx: &mut Ctx) -> Result<(), Violation> {
     });
     ctx.stage("repository-formula-files", true, r)?;
 
-    let cases = ctx.tier.pick(150_000, 3_000_000);
+    let cases = ctx.tier.cases(150_000, 3_000_000);
     let (nn, dd) = (ctx.tier.pick(6, 8), ctx.tier.pick(5, 7));
     let cli_every = ctx.tier.pick(400u64, 1500u64);
     let r = par_random(ctx, "random-formulas", cases, 300, |tape, st| {
@@ -344,7 +344,7 @@ pub fn run(ctx: &mut Ctx) -> Result<(), Violation> {
     ctx.stage("random-formulas", false, r)?;
 
     // wide, shallow formulas: 9..14 names, longer counting lists, no fixed points
-    let cases = ctx.tier.pick(6_000, 150_000);
+    let cases = ctx.tier.cases(6_000, 150_000);
     let r = par_random(ctx, "random-wide-formulas", cases, 400, |tape, st| {
         let mut t = Tape::new(tape);
         let nnames = 9 + t.choose(6);
@@ -371,7 +371,7 @@ pub fn run(ctx: &mut Ctx) -> Result<(), Violation> {
     ctx.stage("random-wide-formulas", false, r)?;
 
     // a stage focused on fixed points
-    let cases = ctx.tier.pick(40_000, 600_000);
+    let cases = ctx.tier.cases(40_000, 600_000);
     let r = par_random(ctx, "random-fixpoint-formulas", cases, 300, |tape, st| {
         let mut t = Tape::new(tape);
         let mut cfg = Cfg::standard(2 + t.choose(3), 2 + t.choose(3));
